@@ -10,7 +10,9 @@ import (
 	"strings"
 	"testing"
 
+	dtpb "github.com/google/fhir/go/proto/google/fhir/proto/r4/core/datatypes_go_proto"
 	"github.com/verily-src/fhirpath-go/fhirpath/system"
+	"google.golang.org/protobuf/proto"
 )
 
 type c09Case struct {
@@ -22,6 +24,11 @@ type c09Case struct {
 	UCUM   bool   `json:"ucum"`            // unit written as a quoted string
 	Unit2  string `json:"unit2,omitempty"` // qty cases: second operand
 	Amt2   string `json:"amt2,omitempty"`
+	// Elem: the start value is delivered as a FHIR date/dateTime/time element (a variable)
+	// instead of a literal; SubMs > 0 adds that many microseconds below the millisecond to an
+	// element of MICROSECOND precision (valid FHIR; System values stop at the millisecond)
+	Elem  bool `json:"elem,omitempty"`
+	SubMs int  `json:"subms,omitempty"`
 }
 
 // --- civil calendar (Howard Hinnant's algorithms) ---------------------------
@@ -302,6 +309,12 @@ func c09Gen(s Src) c09Case {
 	default:
 		c.Unit = pickOne(s, c09Keywords)
 	}
+	if s.Prob(25) {
+		c.Elem = true
+		if s.Prob(50) {
+			c.SubMs = pickOne(s, []int{1, 499, 500, 501, 999, s.Range(1, 999)})
+		}
+	}
 	// a third of the amounts sit on a conversion boundary: k coarser units expressed in
 	// the drawn unit, ±1 (365 days, 8759 hours, 31536000000 milliseconds, 53 weeks …)
 	if sz, ok := c09UnitMillis[strings.TrimSuffix(c.Unit, "s")]; ok && !c.UCUM && s.Prob(33) {
@@ -364,6 +377,12 @@ func c09Source(c c09Case) (string, map[string]any) {
 	if c.Kind == "Time" {
 		start = "@T" + c.Start
 	}
+	if c.Elem {
+		if el := c09StartElement(c); el != nil {
+			vars["x"] = el
+			start = "%x"
+		}
+	}
 	q := ""
 	if strings.HasPrefix(c.Amount, "-") {
 		qq, err := system.ParseQuantity(c.Amount, c.Unit)
@@ -386,6 +405,44 @@ func c09Source(c c09Case) (string, map[string]any) {
 	return start + " " + c.Op + " " + q, vars
 }
 
+// c09StartElement: the start value as a FHIR element, nil when FHIR has no such element
+// (times without seconds, dateTimes with hour/minute precision or a time part without offset).
+func c09StartElement(c c09Case) proto.Message {
+	isTime := c.Kind == "Time"
+	t, err := parseAnyTemporal(c.Start, isTime)
+	if err != nil {
+		return nil
+	}
+	sub := int64(0)
+	if c.SubMs > 0 && t.prec == 6 && len(t.frac) == 3 {
+		sub = int64(c.SubMs)
+	}
+	switch c.Kind {
+	case "Time":
+		if e, err := protoTime(c.Start); err == nil {
+			if sub > 0 {
+				e.ValueUs, e.Precision = e.ValueUs+sub, dtpb.Time_MICROSECOND
+			}
+			return e
+		}
+	case "Date":
+		if e, err := protoDate(c.Start); err == nil {
+			return e
+		}
+	case "DateTime":
+		if t.prec >= 3 && !t.hasOff {
+			return nil
+		}
+		if e, err := protoDateTime(c.Start); err == nil {
+			if sub > 0 {
+				e.ValueUs, e.Precision = e.ValueUs+sub, dtpb.DateTime_MICROSECOND
+			}
+			return e
+		}
+	}
+	return nil
+}
+
 func c09Run(ctx *Ctx, c c09Case) {
 	if c.Kind == "qty" {
 		c09RunQty(ctx, c)
@@ -405,7 +462,12 @@ func c09Run(ctx *Ctx, c c09Case) {
 	monthEnd := !isTime && t0.prec >= 2 && int64(t0.D) >= 28
 	zero := ratOf(c.Amount).Sign() == 0
 	nontrivial := !zero && (monthEnd || finer || t0.prec < 5 || exp.clamped || isTime)
-	ctx.Eval(src+fmt.Sprint(vars["q"]), nontrivial, "kind:"+c.Kind, "prec:"+c09PrecUnit[prec], "unit:"+ucls+":"+unit, "expect:"+exp.class)
+	delivery := "start:literal"
+	if vars["x"] != nil {
+		delivery = "start:fhir-element"
+		src += fmt.Sprintf(" with %%x = FHIR %s %s (+%d µs)", c.Kind, c.Start, c.SubMs)
+	}
+	ctx.Eval(src+fmt.Sprint(vars["q"]), nontrivial, delivery, "kind:"+c.Kind, "prec:"+c09PrecUnit[prec], "unit:"+ucls+":"+unit, "expect:"+exp.class)
 	sigBase := fmt.Sprintf("calendar %s(%s) %s %s[%s]", c.Kind, c09PrecUnit[prec], c.Op, unit, ucls)
 	fail := func(what string) {
 		want := exp.class
@@ -488,8 +550,14 @@ func c09Run(ctx *Ctx, c c09Case) {
 			if !t0.hasOff && !isTime {
 				lit = strings.TrimSuffix(lit, "Z")
 			}
-			eq := evalWith("%r = "+lit, nil, map[string]any{"r": out.Coll[0]})
-			same = renderColl(eq.Coll) == "[Boolean:true]"
+			if vars["x"] != nil && c.SubMs > 0 && t0.prec == 6 && len(t0.frac) == 3 {
+				// the element carries microseconds below the printed millisecond; what they
+				// become is C15's matter — here the printed milliseconds must be the model's
+				same = got.nanos()/1e6 == w.nanos()/1e6
+			} else {
+				eq := evalWith("%r = "+lit, nil, map[string]any{"r": out.Coll[0]})
+				same = renderColl(eq.Coll) == "[Boolean:true]"
+			}
 		}
 	}
 	if !same {
